@@ -524,6 +524,13 @@ type LoopSpec struct {
 	Index      string // ghost name for hidden index of range loops
 	Yields     []*Clause
 	Modifies   []string
+	Ghosts     []LoopGhost
+}
+
+type LoopGhost struct {
+	Name string
+	Expr SExpr
+	Text string
 }
 
 type CallAssert struct {
@@ -557,6 +564,7 @@ type Contract struct {
 	Pure       bool
 	Loops      map[int]*LoopSpec
 	CallAsserts []*CallAssert
+	ReturnAsserts map[int][]*Clause
 	PanicsWhen []*Clause
 	Uses       []string // lemma / axiom group names
 	Abstract   []string // callees or statement kinds abstracted
@@ -588,6 +596,7 @@ type Lemma struct {
 	Requires []*Clause
 	Ensures  []*Clause
 	Induct   string // variable name for induction (on Int, step -1)
+	Triggers [][]SExpr
 	Uses     []string
 	Props    []string
 	File     string
@@ -608,7 +617,7 @@ var blockKeywords = map[string]bool{"functype": true, "func": true, "extern": tr
 var clauseKeywords = map[string]bool{
 	"requires": true, "ensures": true, "modifies": true, "reads": true, "loop": true, "at": true, "panics_when": true,
 	"prop": true, "pure": true, "uses": true, "abstract": true, "counts": true, "trusted": true, "may_panic": true,
-	"induct": true, "inline": true, "opaque": true, "nosafe": true,
+	"induct": true, "trigger": true, "inline": true, "opaque": true, "nosafe": true,
 }
 
 // readContractFile parses the //@ lines of one file.
@@ -771,6 +780,16 @@ func readContractFile(path, pkgPath string) (*ContractFile, error) {
 				return nil, fail(rl.line, "induct outside lemma")
 			}
 			curLemma.Induct = rest
+		case "trigger":
+			if curLemma == nil {
+				return nil, fail(rl.line, "trigger outside lemma")
+			}
+			// trigger e1, e2   (one multi-pattern per clause)
+			e, err := parseSpecExpr("f(" + rest + ")")
+			if err != nil {
+				return nil, fail(rl.line, "%v", err)
+			}
+			curLemma.Triggers = append(curLemma.Triggers, e.(*SCall).Args)
 		case "modifies":
 			if cur == nil {
 				return nil, fail(rl.line, "modifies outside a block")
@@ -847,6 +866,17 @@ func readContractFile(path, pkgPath string) (*ContractFile, error) {
 					return nil, err
 				}
 				ls.Yields = append(ls.Yields, c)
+			case "ghost":
+				// loop N ghost name = expr   (evaluated once at loop entry)
+				parts := strings.SplitN(rest, "=", 2)
+				if len(parts) != 2 {
+					return nil, fail(rl.line, "loop N ghost name = expr")
+				}
+				e, err := parseSpecExpr(strings.TrimSpace(parts[1]))
+				if err != nil {
+					return nil, fail(rl.line, "%v", err)
+				}
+				ls.Ghosts = append(ls.Ghosts, LoopGhost{Name: strings.TrimSpace(parts[0]), Expr: e, Text: rest})
 			case "visited":
 				ls.Visited = rest
 			case "index":
@@ -861,8 +891,24 @@ func readContractFile(path, pkgPath string) (*ContractFile, error) {
 		case "at":
 			// at call <callee>#k assert [label] expr
 			f := splitWords(rest, 4)
+			if len(f) == 4 && f[0] == "return" && f[2] == "assert" {
+				k, err := strconv.Atoi(strings.TrimPrefix(f[1], "#"))
+				if err != nil {
+					return nil, fail(rl.line, "bad return ordinal")
+				}
+				rest = f[3]
+				c, err := parseClause("assert")
+				if err != nil {
+					return nil, err
+				}
+				if cur.ReturnAsserts == nil {
+					cur.ReturnAsserts = map[int][]*Clause{}
+				}
+				cur.ReturnAsserts[k] = append(cur.ReturnAsserts[k], c)
+				continue
+			}
 			if len(f) < 4 || f[0] != "call" || f[2] != "assert" {
-				return nil, fail(rl.line, "at call <callee>#k assert <expr>")
+				return nil, fail(rl.line, "at call <callee>#k assert <expr> | at return #k assert <expr>")
 			}
 			callee, k := f[1], 1
 			if i := strings.LastIndex(callee, "#"); i >= 0 {
